@@ -35,17 +35,15 @@ theorem c11_encode_decode_encode (crc : Bytes → UInt32) (m : Module) (h : m.wf
   obtain ⟨b, he, hd⟩ := decode_encode crc m h
   exact ⟨b, he, by rw [hd]; exact he⟩
 
-/-- **Round trip from arbitrary bytes** ("encoding a decoded module … decoding an encoded module
-reproduces the module" for modules that come out of `decode`).  Whatever a byte string decodes to,
-encoding and decoding it again gives the same module — provided its type tables are laid out
-canonically (`Module.firstOffsetsOk`: the first type entry starts right behind the offset table —
-the one freedom the decoder leaves and `encode` never uses; all other offsets are forced; see `c11_counterexample_noncanonical_offsets`)
-and the container is not within 1 MiB of 4 GiB. -/
-theorem c11_decode_encode_decode_partial (crc : Bytes → UInt32) (bytes : Bytes) (m : Module)
-    (h : decode crc bytes = .ok m) (hcan : m.firstOffsetsOk = true)
-    (hsz : bytes.length + 1048576 < 4294967296) :
+/-- **Round trip from arbitrary bytes** ("encoding a decoded module reproduces the bytes and
+decoding an encoded module reproduces the module" for whatever comes out of `decode`).  If a byte
+string decodes to `m`, then `m` is well-formed, `encode m` succeeds and decodes to `m` again — for
+every input below 4 GiB − 1 MiB (the format's `u32` offsets) and every checksum function.  Since
+e5dfde6 no further guard is needed: the decoder enforces the canonical type-table layout. -/
+theorem c11_decode_encode_decode (crc : Bytes → UInt32) (bytes : Bytes) (m : Module)
+    (h : decode crc bytes = .ok m) (hsz : bytes.length + 1048576 < 4294967296) :
     m.wf = true ∧ ∃ b', encode crc m = .ok b' ∧ decode crc b' = .ok m :=
-  ⟨decode_wf crc bytes m h hcan hsz, decode_encode_decode crc bytes m h hcan hsz⟩
+  ⟨decode_wf crc bytes m h hsz, decode_encode_decode crc bytes m h hsz⟩
 
 /-- **"every container the compiler emits validates"**, byte side: the compiler returns a module
 only after `module.validate()` succeeded (`encoder/mod.rs`, checked by the translator scan and by
@@ -191,28 +189,26 @@ example : validateConstEntryFuel 0 [] 65 ⟨.primitive, none, .primitive 1 0⟩ 
 
 example : ∃ b, encode crc0 (exModule 0) = .ok b ∧ decode crc0 b = .ok (exModule 0) :=
   c11_decode_encode crc0 _ (by rfl)
-example : (exModule 0).firstOffsetsOk = true := by rfl
 set_option maxRecDepth 8192 in
-example : ∃ bytes m, decode crc0 bytes = .ok m ∧ m.firstOffsetsOk = true ∧
-    bytes.length + 1048576 < 4294967296 := by
+example : ∃ bytes m, decode crc0 bytes = .ok m ∧ bytes.length + 1048576 < 4294967296 := by
   obtain ⟨b, he, hd⟩ := c11_decode_encode crc0 (exModule 0) (by rfl)
-  refine ⟨b, _, hd, by rfl, ?_⟩
+  refine ⟨b, _, hd, ?_⟩
   have hl : (encode crc0 (exModule 0)).map List.length = .ok 320 := by rfl
   rw [he] at hl
   simp only [Except.map, Except.ok.injEq] at hl
   omega
 example : boundedCapacity 0xFFFFFFFF 100 = 100 := by rfl
 
-/-- **The `wf` guard of `c11_decode_encode` is needed (and is the only deviation from a literal
-reading of "decoding an encoded module reproduces the module").**  The decoder accepts a type table
-whose first entry does not start right behind the offset table and keeps the offsets it read in
-`TypeTable.offsets`; `encode` always writes the canonical layout.  So the module decoded from such
-(hand-crafted) bytes is not reproduced by `decode ∘ encode` — the offsets differ, nothing else.
-Compiler-emitted modules carry the canonical offsets (`compute_type_offsets_for_entries`). -/
-theorem c11_counterexample_noncanonical_offsets :
-    decTypeTable 1 gapPayload = .ok (gapTable 12) ∧ (gapTable 12).wf 1 = false ∧
-    sectionFirstOffsetOk 1 (.typeTable (gapTable 12)) = false ∧
-    decTypeTable 1 (encTypeTable 1 (gapTable 12)) = .ok (gapTable 8) ∧ gapTable 12 ≠ gapTable 8 :=
-  ⟨by rfl, by rfl, by rfl, by rfl, by decide⟩
+/-- **The former witness is rejected** (e5dfde6).  A type table with four stray bytes between the
+offset table and its only entry used to decode to a module that `decode ∘ encode` did not reproduce
+(its `offsets` were `[12]`, `encode` writes `[8]`); now the decoder answers
+`InvalidSection("type table offset out of bounds")`.  A hand-built module with non-canonical offsets
+is still outside `Module.wf` (`TypeTable.offsets` is redundant data), which is why
+`c11_decode_encode` has that hypothesis; nothing the decoder or the compiler produces is. -/
+theorem c11_noncanonical_offsets_rejected :
+    decTypeTable 1 gapPayload = .error (.invalidSection .typeOffsetOutOfBounds) ∧
+    (gapTable 12).wf 1 = false ∧ (gapTable 8).wf 1 = true ∧
+    decTypeTable 1 (encTypeTable 1 (gapTable 12)) = .ok (gapTable 8) :=
+  ⟨by rfl, by rfl, by rfl, by rfl⟩
 
 end TrustVerif.C11
